@@ -41,7 +41,7 @@ EQPool(z) ==
   \cup UNION {WithWraps(RepsOf(v, NR2, AR, OR), {<<>>, <<"ptr">>}) : v \in PlainContainers}
 
 \* ------------------------------------------------------------ uniqueItems / enum / const
-UAElems == {Num(R_0), Num(R_m1), Str("1"), Null, Bool(TRUE), Arr(<<Num(R_m1)>>), Obj([a |-> Num(R_0)]), Num(R_2p63)}
+UAElems == {Num(R_0), Num(R_m1), Num(R_1), Str("1"), Null, Bool(TRUE), Arr(<<Num(R_m1)>>), Obj([a |-> Num(R_0)]), Num(R_2p63)}
                \cup (IF K >= 2 THEN {Str("a"), Num(R_2), Obj([a |-> Num(R_1), b |-> Num(R_2)])} ELSE {})
 UAPlain(z) == {Arr(e) : e \in UNION {[1..n -> UAElems] : n \in 0..(IF K >= 2 THEN 3 ELSE 2)}}
               \cup {Arr(<<Num(R_1), Num(R_2), Num(R_0), x, Num(R_1h)>>) : x \in {Num(R_1), Num(R_4), Num(R_0)}}
